@@ -92,6 +92,23 @@ func errValue(code meta.ErrCode, msg string, err error) Value {
 	}
 }
 
+// errValueOf makes an error value out of any error: the helpers of this package report error nodes,
+// the binary protocol reports meta.Error or plain errors such as io.EOF
+//
+//go:noinline
+func errValueOf(msg string, err error) Value {
+	code := meta.ErrRead
+	switch e := err.(type) {
+	case Node:
+		code = e.ErrCode()
+	case Value:
+		code = e.ErrCode()
+	case meta.Error:
+		code = e.Code
+	}
+	return errValue(code.Behavior(), msg, err)
+}
+
 //go:noinline
 func errPathNode(code meta.ErrCode, msg string, err error) *PathNode {
 	// panic(code.Behavior())
